@@ -29,10 +29,14 @@ CLAIMED = {
   text="The real randdata and gounions generators run on fixed corpus programs (including cyclic type graphs) and seeded synthesised programs; the generated files are compiled unmodified into one binary. Each simulated run is a child process that calls every generated rand<T> function 32 times, each call under rand.Seed(s) with s derived from the run seed, and checks every returned value by reflection against tables derived from the source (enum constants, union members, skip tags): no panic, enum values exported constants, unions non-nil members, containers populated in at least one call, skipped fields zero, values vary where the type admits two, JSON round trip. Termination is bounded liveness: a stack overflow (64 MiB) or a call exceeding 10 s is attributed to the last logged call. Sampling over programs and seeds.",
   note="Trusted: the reflection walker and the conservative 'admits two values' rule in c15/rt; synthesised programs stay inside the profile where the generated code compiles (a program whose generated code does not compile is dropped and counted - that is C01, not claimed); go1.23 math/rand seeding.",
   ref="3 (C15)"),
+ "C05": dict(
+  technique="deterministic simulation: seeded call histories of the generated CRUD code against a simulated PostgreSQL loaded from the generated schema, with driver fault injection; map reference model judged call by call",
+  text="The real SQL and sqlcrud generators run on a hand-written corpus program and seeded synthesised model files; the generated Go file is compiled unmodified and executed through database/sql against pgsim, a simulated PostgreSQL loaded only from the generated DDL (identifier folding, serial, defaults, NOT NULL, CHECK, UNIQUE/PRIMARY KEY, FOREIGN KEY with ON DELETE actions, typed values with canonical output text, transactions, COPY, placeholder audit). Each simulated run is a history of up to 40 abstract operations resolved against a map reference model built from the source's own description; every call is compared with the model and full cross-checks are interleaved. One third of the histories inject driver faults (error before/after apply, bad connection with retry, broken result set, failed commit, connection lost inside a transaction); a faulted call is not judged and the model is resynchronised. Sampling over programs and histories.",
+  note="Trusted: pgsim (my model of PostgreSQL, lenient where unsure), stubs/pq (stand-in for lib/pq's array formats, NullTime, CopyIn), the reflection harness and its model of ON DELETE cascades. Rows stay in the domain the emitted SQL types represent exactly. Validation functions are opaque (C04).",
+  ref="3 (C05)"),
 }
 
 BUILDING = {
- "C05": "check under construction in this session (simulated PostgreSQL); will be claimed once it runs - see DESIGN.md section 3",
 }
 
 NA = {
